@@ -7,6 +7,7 @@ Open Scope Z_scope.
 (* ---- output ---------------------------------------------------------------------------- *)
 Inductive oline :=
 | OOut (l : line)            (* a line on the out stream *)
+| OMsg (ci : nat) (m : rmsg) (l : line)   (* a message line on the out stream (message.show) *)
 | OErr (l : line)            (* a line on the err stream *)
 | OMaybe (l : line)          (* a separator whose presence depends on binary64 rounding at exactly 1 s *)
 | OAnyLines                  (* zero or more out lines the model does not predict (help text) *)
@@ -35,7 +36,6 @@ Record sess := mkSess {
   s_known : list str;                (* Parser.known_connections, order of first appearance *)
   s_last_time : Z;                   (* Parser.last_time *)
   s_parse : bool;                    (* Parser's `parse` flag *)
-  s_base : option Z;                 (* Message.base_time *)
   s_paused : bool; s_quit : bool;    (* PersistentUIState *)
   s_gdb : list (str * Z);            (* Plugin.connections: id -> thread *)
   s_color : bool;
@@ -43,17 +43,14 @@ Record sess := mkSess {
   s_in_gdb : bool }.                 (* check_gdb(): affects command_format only *)
 
 Definition init_sess (display stop : mt) (color unprocessed in_gdb : bool) : sess :=
-  mkSess [] 0 (mkCtrl display stop None [] None) [] 0 true None false false [] color unprocessed in_gdb.
+  mkSess [] 0 (mkCtrl display stop None [] None) [] 0 true false false [] color unprocessed in_gdb.
 
 Definition set_ctrl (s : sess) (k : ctrl) : sess :=
-  mkSess (s_conns s) (s_next s) k (s_known s) (s_last_time s) (s_parse s) (s_base s)
-         (s_paused s) (s_quit s) (s_gdb s) (s_color s) (s_unprocessed s) (s_in_gdb s).
+  mkSess (s_conns s) (s_next s) k (s_known s) (s_last_time s) (s_parse s) (s_paused s) (s_quit s) (s_gdb s) (s_color s) (s_unprocessed s) (s_in_gdb s).
 Definition set_conns (s : sess) (cs : list connst) : sess :=
-  mkSess cs (s_next s) (s_ctrl s) (s_known s) (s_last_time s) (s_parse s) (s_base s)
-         (s_paused s) (s_quit s) (s_gdb s) (s_color s) (s_unprocessed s) (s_in_gdb s).
+  mkSess cs (s_next s) (s_ctrl s) (s_known s) (s_last_time s) (s_parse s) (s_paused s) (s_quit s) (s_gdb s) (s_color s) (s_unprocessed s) (s_in_gdb s).
 Definition set_pause (s : sess) (p q : bool) : sess :=
-  mkSess (s_conns s) (s_next s) (s_ctrl s) (s_known s) (s_last_time s) (s_parse s) (s_base s)
-         p q (s_gdb s) (s_color s) (s_unprocessed s) (s_in_gdb s).
+  mkSess (s_conns s) (s_next s) (s_ctrl s) (s_known s) (s_last_time s) (s_parse s) p q (s_gdb s) (s_color s) (s_unprocessed s) (s_in_gdb s).
 
 Fixpoint update_nth {A} (n : nat) (f : A -> A) (l : list A) : list A :=
   match l, n with
@@ -106,7 +103,7 @@ Definition open_conn (s : sess) (id : str) (sv : option bool) : sess * list olin
   let name := conn_name (s_next s1) in
   let c := mkConn id name sv true None None db_init [] in
   (mkSess (s_conns s1 ++ [c]) (s_next s1 + 1)%N (s_ctrl s1) (s_known s1) (s_last_time s1) (s_parse s1)
-          (s_base s1) (s_paused s1) (s_quit s1) (s_gdb s1) (s_color s1) (s_unprocessed s1) (s_in_gdb s1),
+          (s_paused s1) (s_quit s1) (s_gdb s1) (s_color s1) (s_unprocessed s1) (s_in_gdb s1),
    o1 ++ [new_conn_line (s_color s1) sv name]).
 
 (* ---- Controller: live view ----------------------------------------------------------------- *)
@@ -116,17 +113,13 @@ Definition sep_line (on : bool) (delta : Z) : line :=
    Txt (if on then reset else [])].
 
 (* _show_message *)
-Definition show_message (on : bool) (d : db) (cname : str) (last : option Z) (m : rmsg)
+Definition show_message (on : bool) (ci : nat) (d : db) (cname : str) (last : option Z) (m : rmsg)
   : list oline * option Z :=
   let delta := match last with Some t => m_time m - t | None => 0 end in
   ((if 1000000 <? delta then [OOut (sep_line on delta)]
     else if delta =? 1000000 then [OMaybe (sep_line on delta)] else [])
-   ++ [OOut (show_msg on d cname m)],
+   ++ [OMsg ci m (show_msg on d cname m)],
    Some (m_time m)).
-
-Definition strip_line (l : line) : line :=
-  (* str(message).strip(): message text never starts or ends with blanks except the ' ↲' (not blank) *)
-  l.
 
 (* connection_got_new_message *)
 Definition ctrl_on_message (on : bool) (k : ctrl) (ci : nat) (d : db) (cname : str) (m : rmsg)
@@ -135,7 +128,7 @@ Definition ctrl_on_message (on : bool) (k : ctrl) (ci : nat) (d : db) (cname : s
   let selected := match k_current k with None => true | Some j => Nat.eqb j ci end in
   if selected then
     let v := VM (view_msg d cname m) in
-    let '(o1, last1) := if matches (k_display k) v then show_message on d cname (k_last_shown k) m
+    let '(o1, last1) := if matches (k_display k) v then show_message on ci d cname (k_last_shown k) m
                         else ([], k_last_shown k) in
     let stop := matches (k_stop k) v in
     let o2 := if stop then [OOut (Txt (color on alert_color (s2l "    Stopped at ")) :: show_msg_body on d m)] else [] in
@@ -199,11 +192,11 @@ Definition conn_message (s : sess) (id : str) (rel : Z) (m : pmsg)
 Definition is_get_registry (m : pmsg) : option bool :=
   if str_eqb (p_name m) (s2l "get_registry") then Some (negb (p_sent m)) else None.
 
-Definition set_base (s : sess) (t : Z) : sess * Z :=
-  match s_base s with
-  | Some b => (s, t - b)
-  | None => (mkSess (s_conns s) (s_next s) (s_ctrl s) (s_known s) (s_last_time s) (s_parse s) (Some t)
-                    (s_paused s) (s_quit s) (s_gdb s) (s_color s) (s_unprocessed s) (s_in_gdb s), 0)
+(* Message.__init__: the first message constructed fixes base_time *)
+Definition rel_time (base : option Z) (t : Z) : option Z * Z :=
+  match base with
+  | Some b => (base, t - b)
+  | None => (Some t, 0)
   end.
 
 Definition unprocessed_line (s : sess) (text : str) : list oline :=
@@ -215,24 +208,20 @@ Definition error_line (on : bool) (l : line) : oline := OErr (Txt (color on bad_
 Definition warn_line (on : bool) (l : line) : oline := OErr (Txt (color on alert_color (s2l "Warning: ")) :: l).
 
 (* Parser: one decoded line *)
-Definition log_message (s : sess) (id : str) (m : pmsg) : sess * list oline :=
-  let '(s0, rel) := set_base s (p_time m) in
+Definition log_message (s0 : sess) (id : str) (rel : Z) (m : pmsg) : sess * list oline :=
   if negb (s_parse s0) then (s0, []) else
-  let s1 := mkSess (s_conns s0) (s_next s0) (s_ctrl s0) (s_known s0) rel (s_parse s0) (s_base s0)
-                   (s_paused s0) (s_quit s0) (s_gdb s0) (s_color s0) (s_unprocessed s0) (s_in_gdb s0) in
+  let s1 := mkSess (s_conns s0) (s_next s0) (s_ctrl s0) (s_known s0) rel (s_parse s0) (s_paused s0) (s_quit s0) (s_gdb s0) (s_color s0) (s_unprocessed s0) (s_in_gdb s0) in
   let '(s2, o1) :=
     if existsb (str_eqb id) (s_known s1) then (s1, [])
     else
       let '(sa, oa) := open_conn s1 id (is_get_registry m) in
-      (mkSess (s_conns sa) (s_next sa) (s_ctrl sa) (s_known sa ++ [id]) (s_last_time sa) (s_parse sa) (s_base sa)
-              (s_paused sa) (s_quit sa) (s_gdb sa) (s_color sa) (s_unprocessed sa) (s_in_gdb sa), oa) in
+      (mkSess (s_conns sa) (s_next sa) (s_ctrl sa) (s_known sa ++ [id]) (s_last_time sa) (s_parse sa) (s_paused sa) (s_quit sa) (s_gdb sa) (s_color sa) (s_unprocessed sa) (s_in_gdb sa), oa) in
   let '(s3, o2, err, _) := conn_message s2 id rel m in
   match err with
   | None => (s3, o1 ++ o2)
   | Some (RuntimeError, msg) => (s3, o1 ++ o2 ++ unprocessed_line s3 msg)
   | Some (_, _) =>
-      (mkSess (s_conns s3) (s_next s3) (s_ctrl s3) (s_known s3) (s_last_time s3) false (s_base s3)
-              (s_paused s3) (s_quit s3) (s_gdb s3) (s_color s3) (s_unprocessed s3) (s_in_gdb s3),
+      (mkSess (s_conns s3) (s_next s3) (s_ctrl s3) (s_known s3) (s_last_time s3) false (s_paused s3) (s_quit s3) (s_gdb s3) (s_color s3) (s_unprocessed s3) (s_in_gdb s3),
        o1 ++ o2 ++ [OOut [AnyText]; error_line (s_color s3) [AnyText]])
   end.
 
@@ -251,13 +240,6 @@ Definition command_format (s : sess) (cmd : str) : str :=
   else s2l "$ " ++ color (s_color s) alert_color cmd.
 
 (* _get_command: unique prefix *)
-Definition get_command (s : sess) (c : str) : option str * list oline :=
-  match filter (starts_with c) command_names with
-  | [x] => (Some x, [])
-  | [] => (None, [error_line (s_color s) (txt (39%N :: c ++ s2l "' could refer to multiple commands: "))])
-  | found => (None, [])
-  end.
-
 Definition get_command' (s : sess) (c : str) : option str * list oline :=
   match filter (starts_with c) command_names with
   | [x] => (Some x, [])
@@ -336,7 +318,7 @@ Definition show_messages (s : sess) (m : mt) (cap : option Z) : sess * list olin
         fold_left (fun (acc : list oline * option Z) (p : nat * rmsg) =>
                      match nth_error (s_conns s) (fst p) with
                      | Some c =>
-                         let '(o, l) := show_message on (c_db c) (c_name c) (snd acc) (snd p) in
+                         let '(o, l) := show_message on (fst p) (c_db c) (c_name c) (snd acc) (snd p) in
                          (fst acc ++ o, l)
                      | None => acc
                      end) matching ([], None) in
@@ -389,113 +371,132 @@ Definition list_connections (s : sess) : list oline :=
 (* int(text) for the cap *)
 Definition split_tilde (arg : str) : list str := split_char 126%N arg.
 
-Definition run_command (s : sess) (name arg : str) : sess * list oline :=
+Definition cmd_help (s : sess) (arg : str) : sess * list oline :=
+  (* help text is not modelled beyond the errors _get_command may print *)
+  match arg with
+  | [] => (s, [OAnyLines])
+  | _ =>
+      let a := if starts_with (s2l "wl") arg then strip (skipn 2 arg) else arg in
+      if str_eqb a (s2l "matcher") then (s, [OAnyLines])
+      else let '(_, errs) := get_command' s a in (s, errs ++ [OAnyLines])
+  end.
+
+Definition cmd_list (s : sess) (arg : str) : sess * list oline :=
   let on := s_color s in
   let k := s_ctrl s in
-  if str_eqb name (s2l "help") then
-    (* help text is not modelled beyond the errors _get_command may print *)
-    match arg with
-    | [] => (s, [OAnyLines])
-    | _ =>
-        let a := if starts_with (s2l "wl") arg then strip (skipn 2 arg) else arg in
-        if str_eqb a (s2l "matcher") then (s, [OAnyLines])
-        else let '(_, errs) := get_command' s a in (s, errs ++ [OAnyLines])
-    end
-  else if str_eqb name (s2l "list") then
-    let parts := split_tilde arg in
-    let cap : res (option Z) :=
-      match parts with
-      | [_; c] => match py_int c with
-                  | Ok z => Ok (Some z)
-                  | Raise ValueError _ => Raise ValueError c
-                  | Raise e m => Raise e m
-                  end
-      | _ => Ok None
-      end in
-    match cap with
-    | Raise ValueError c =>
-        (s, [error_line on (txt (s2l "Expected number after '~', got '" ++ c ++ [39%N]))])
-    | Raise _ _ => (s, [OOM])
-    | Ok cap' =>
-        let a := match parts with x :: _ => x | [] => [] end in
-        match a with
-        | [] => show_messages s (k_display k) cap'
-        | _ =>
-            match parse_and_join s a None with
-            | Ok (m, errs) => let '(s1, o) := show_messages s m cap' in (s1, errs ++ o)
-            | Raise _ _ => (s, [OOM])
-            end
-        end
-    end
-  else if str_eqb name (s2l "filter") then
-    match arg with
-    | [] => (s, [OOut (txt (s2l "Output filter: " ++ mshow on (k_display k)))])
-    | _ =>
-        match parse_and_join s arg (Some (k_display k)) with
-        | Ok (m, errs) =>
-            (set_ctrl s (mkCtrl m (k_stop k) (k_current k) (k_all k) (k_last_shown k)),
-             errs ++ [OOut (txt (s2l "Only showing messages that match " ++ mshow on m))])
-        | Raise _ _ => (s, [OOM])
-        end
-    end
-  else if str_eqb name (s2l "breakpoint") then
-    match arg with
-    | [] => (s, [OOut (txt (s2l "Breakpoint matcher: " ++ mshow on (k_stop k)))])
-    | _ =>
-        match parse_and_join s arg (Some (k_stop k)) with
-        | Ok (m, errs) =>
-            (set_ctrl s (mkCtrl (k_display k) m (k_current k) (k_all k) (k_last_shown k)),
-             errs ++ [OOut (txt (s2l "Breaking on messages that match: " ++ mshow on m))])
-        | Raise _ _ => (s, [OOM])
-        end
-    end
-  else if str_eqb name (s2l "matcher") then
-    match arg with
-    | [] => (s, [OOut (txt (s2l "No matcher to parse"))])
-    | _ =>
-        let fail := error_line on [Txt (s2l "Failed to parse """ ++ arg ++ [34; 58; 10; 32; 32; 32; 32]%N); AnyText] in
-        match parse arg with
-        | Raise RuntimeError _ => (s, [fail])
-        | Raise _ _ => (s, [OOM])
-        | Ok p =>
-            let un := mshow on p in
-            let l1 := [OOut (txt (s2l "Unsimplified: " ++ un)); OOut (txt (s2l "  Simplified: " ++ mshow on (simplify p)))] in
-            match parse un with
-            | Ok p2 => (s, l1 ++ [OOut (txt (s2l "    Reparsed: " ++ mshow on (simplify p2)))])
-            | Raise RuntimeError _ => (s, l1 ++ [fail])
-            | Raise _ _ => (s, [OOM])
-            end
-        end
-    end
-  else if str_eqb name (s2l "connection") then
-    match arg with
-    | [] => (s, list_connections s)
-    | _ =>
-        if str_eqb arg (s2l "all") then
-          (set_ctrl s (mkCtrl (k_display k) (k_stop k) None (k_all k) (k_last_shown k)),
-           [OOut (txt (s2l "Showing messages from all connections"))])
-        else if negb (all_ascii arg) then (s, [OOM])
-        else
-          let n := lower arg in
-          let found :=
-            match find_conn_by (fun c => str_eqb n (lower (c_name c))) O (s_conns s) with
-            | Some i => Some i
-            | None => find_conn_by (fun c => match c_app_id c with
-                                             | Some a => all_ascii a && str_eqb n (lower a)
-                                             | None => false end) O (s_conns s)
-            end in
-          match found with
-          | Some i =>
-              match nth_error (s_conns s) i with
-              | Some c =>
-                  (set_ctrl s (mkCtrl (k_display k) (k_stop k) (Some i) (k_all k) (k_last_shown k)),
-                   [OOut (txt (s2l "Switched to connection " ++ color on white_color (c_name c)))])
-              | None => (s, [])
-              end
-          | None =>
-              (s, error_line on (txt ([34%N] ++ arg ++ s2l """ does not name a connection")) :: list_connections s)
+  let parts := split_tilde arg in
+  let cap : res (option Z) :=
+    match parts with
+    | [_; c] => match py_int c with
+                | Ok z => Ok (Some z)
+                | Raise ValueError _ => Raise ValueError c
+                | Raise e m => Raise e m
+                end
+    | _ => Ok None
+    end in
+  match cap with
+  | Raise ValueError c =>
+      (s, [error_line on (txt (s2l "Expected number after '~', got '" ++ c ++ [39%N]))])
+  | Raise _ _ => (s, [OOM])
+  | Ok cap' =>
+      let a := match parts with x :: _ => x | [] => [] end in
+      match a with
+      | [] => show_messages s (k_display k) cap'
+      | _ =>
+          match parse_and_join s a None with
+          | Ok (m, errs) => let '(s1, o) := show_messages s m cap' in (s1, errs ++ o)
+          | Raise _ _ => (s, [OOM])
           end
-    end
+      end
+  end.
+
+Definition cmd_filter (s : sess) (arg : str) : sess * list oline :=
+  let on := s_color s in
+  let k := s_ctrl s in
+  match arg with
+  | [] => (s, [OOut (txt (s2l "Output filter: " ++ mshow on (k_display k)))])
+  | _ =>
+      match parse_and_join s arg (Some (k_display k)) with
+      | Ok (m, errs) =>
+          (set_ctrl s (mkCtrl m (k_stop k) (k_current k) (k_all k) (k_last_shown k)),
+           errs ++ [OOut (txt (s2l "Only showing messages that match " ++ mshow on m))])
+      | Raise _ _ => (s, [OOM])
+      end
+  end.
+
+Definition cmd_break (s : sess) (arg : str) : sess * list oline :=
+  let on := s_color s in
+  let k := s_ctrl s in
+  match arg with
+  | [] => (s, [OOut (txt (s2l "Breakpoint matcher: " ++ mshow on (k_stop k)))])
+  | _ =>
+      match parse_and_join s arg (Some (k_stop k)) with
+      | Ok (m, errs) =>
+          (set_ctrl s (mkCtrl (k_display k) m (k_current k) (k_all k) (k_last_shown k)),
+           errs ++ [OOut (txt (s2l "Breaking on messages that match: " ++ mshow on m))])
+      | Raise _ _ => (s, [OOM])
+      end
+  end.
+
+Definition cmd_matcher (s : sess) (arg : str) : sess * list oline :=
+  let on := s_color s in
+  match arg with
+  | [] => (s, [OOut (txt (s2l "No matcher to parse"))])
+  | _ =>
+      let fail := error_line on [Txt (s2l "Failed to parse """ ++ arg ++ [34; 58; 10; 32; 32; 32; 32]%N); AnyText] in
+      match parse arg with
+      | Raise RuntimeError _ => (s, [fail])
+      | Raise _ _ => (s, [OOM])
+      | Ok p =>
+          let un := mshow on p in
+          let l1 := [OOut (txt (s2l "Unsimplified: " ++ un)); OOut (txt (s2l "  Simplified: " ++ mshow on (simplify p)))] in
+          match parse un with
+          | Ok p2 => (s, l1 ++ [OOut (txt (s2l "    Reparsed: " ++ mshow on (simplify p2)))])
+          | Raise RuntimeError _ => (s, l1 ++ [fail])
+          | Raise _ _ => (s, [OOM])
+          end
+      end
+  end.
+
+Definition cmd_connection (s : sess) (arg : str) : sess * list oline :=
+  let on := s_color s in
+  let k := s_ctrl s in
+  match arg with
+  | [] => (s, list_connections s)
+  | _ =>
+      if str_eqb arg (s2l "all") then
+        (set_ctrl s (mkCtrl (k_display k) (k_stop k) None (k_all k) (k_last_shown k)),
+         [OOut (txt (s2l "Showing messages from all connections"))])
+      else if negb (all_ascii arg) then (s, [OOM])
+      else
+        let n := lower arg in
+        let found :=
+          match find_conn_by (fun c => str_eqb n (lower (c_name c))) O (s_conns s) with
+          | Some i => Some i
+          | None => find_conn_by (fun c => match c_app_id c with
+                                           | Some a => all_ascii a && str_eqb n (lower a)
+                                           | None => false end) O (s_conns s)
+          end in
+        match found with
+        | Some i =>
+            match nth_error (s_conns s) i with
+            | Some c =>
+                (set_ctrl s (mkCtrl (k_display k) (k_stop k) (Some i) (k_all k) (k_last_shown k)),
+                 [OOut (txt (s2l "Switched to connection " ++ color on white_color (c_name c)))])
+            | None => (s, [])
+            end
+        | None =>
+            (s, error_line on (txt ([34%N] ++ arg ++ s2l """ does not name a connection")) :: list_connections s)
+        end
+  end.
+
+Definition run_command (s : sess) (name arg : str) : sess * list oline :=
+  if str_eqb name (s2l "help") then cmd_help s arg
+  else if str_eqb name (s2l "list") then cmd_list s arg
+  else if str_eqb name (s2l "filter") then cmd_filter s arg
+  else if str_eqb name (s2l "breakpoint") then cmd_break s arg
+  else if str_eqb name (s2l "matcher") then cmd_matcher s arg
+  else if str_eqb name (s2l "connection") then cmd_connection s arg
   else if str_eqb name (s2l "resume") then (set_pause s false (s_quit s), [])
   else if str_eqb name (s2l "quit") then (set_pause s (s_paused s) true, [])
   else (s, []).
@@ -548,12 +549,10 @@ Fixpoint gdb_get (l : list (str * Z)) (id : str) : option Z :=
 Definition gdb_del (l : list (str * Z)) (id : str) : list (str * Z) :=
   filter (fun p => negb (str_eqb (fst p) id)) l.
 Definition set_gdb (s : sess) (g : list (str * Z)) : sess :=
-  mkSess (s_conns s) (s_next s) (s_ctrl s) (s_known s) (s_last_time s) (s_parse s) (s_base s)
-         (s_paused s) (s_quit s) g (s_color s) (s_unprocessed s) (s_in_gdb s).
+  mkSess (s_conns s) (s_next s) (s_ctrl s) (s_known s) (s_last_time s) (s_parse s) (s_paused s) (s_quit s) g (s_color s) (s_unprocessed s) (s_in_gdb s).
 
 (* WlClosureCallBreakpoint.stop(): Plugin.process_message then return paused() *)
-Definition gdb_message (s : sess) (id : str) (thread : Z) (m : pmsg) : sess * list oline :=
-  let '(s0, rel) := set_base s (p_time m) in
+Definition gdb_message (s0 : sess) (id : str) (thread : Z) (rel : Z) (m : pmsg) : sess * list oline :=
   let s1 := set_pause s0 false (s_quit s0) in
   let '(s2, o1) :=
     match gdb_get (s_gdb s1) id with
@@ -601,24 +600,33 @@ Inductive event :=
 | EGdbDestroy (conn_id : str)
 | EGdbCmd (s : str).
 
-Definition step (s : sess) (e : event) : sess * list oline :=
+(* the whole tool state: Message.base_time (absolute) + everything else (relative times only) *)
+Record top := mkTop { t_base : option Z; t_sess : sess }.
+
+Definition step (T : top) (e : event) : top * list oline :=
+  let s := t_sess T in
+  let keep (r : sess * list oline) := (mkTop (t_base T) (fst r), snd r) in
   match e with
-  | EMsg id m => log_message s id m
-  | EText t => (s, unprocessed_line s t)
-  | ECmd c => process_command command_fuel s c
-  | EEof => log_eof s
-  | EGdbMsg id t m => gdb_message s id t m
-  | EGdbDestroy id => gdb_destroy s id
-  | EGdbCmd c => gdb_command s c
+  | EMsg id m =>
+      let '(b, rel) := rel_time (t_base T) (p_time m) in
+      let '(s1, o) := log_message s id rel m in (mkTop b s1, o)
+  | EText t => keep (s, unprocessed_line s t)
+  | ECmd c => keep (process_command command_fuel s c)
+  | EEof => keep (log_eof s)
+  | EGdbMsg id t m =>
+      let '(b, rel) := rel_time (t_base T) (p_time m) in
+      let '(s1, o) := gdb_message s id t rel m in (mkTop b s1, o)
+  | EGdbDestroy id => keep (gdb_destroy s id)
+  | EGdbCmd c => keep (gdb_command s c)
   end.
 
-Fixpoint run (s : sess) (es : list event) : sess * list (list oline) :=
+Fixpoint run (T : top) (es : list event) : top * list (list oline) :=
   match es with
-  | [] => (s, [])
+  | [] => (T, [])
   | e :: es' =>
-      let '(s1, o) := step s e in
-      let '(s2, os) := run s1 es' in
-      (s2, o :: os)
+      let '(T1, o) := step T e in
+      let '(T2, os) := run T1 es' in
+      (T2, o :: os)
   end.
 
 End WithProtocol.
